@@ -5,7 +5,7 @@ use crate::contracts::access::AcWrap;
 use crate::examples;
 use crate::report::Report;
 use crate::rng::Rng;
-use crate::world::{invoke, tag, Fail, Inv, World};
+use crate::world::{Must, invoke, tag, Fail, Inv, World};
 use crate::Cfg;
 use soroban_sdk::{Address, Env, String as SString, Symbol, Val, Vec as SVec};
 use std::collections::{BTreeMap, BTreeSet};
@@ -102,10 +102,10 @@ fn sym(e: &Env, r: usize) -> Symbol {
 fn observe_all(rep: &mut Report, w: &World, c: &Address, u: &[Address], m: &Model, site: &str) {
     let e = &w.env;
     let n = u.len();
-    let admin: Option<Address> = invoke(e, c, "get_admin", args!(e)).expect("get_admin");
+    let admin: Option<Address> = invoke(e, c, "get_admin", args!(e)).must("get_admin");
     let admin_i = admin.map(|a| u.iter().position(|x| *x == a).unwrap_or(usize::MAX));
     rep.check("ref", admin_i == m.admin, &format!("C06/ref/{site}/get_admin"), || format!("get_admin={admin_i:?} model={:?}", m.admin));
-    let existing: SVec<Symbol> = invoke(e, c, "get_existing_roles", args!(e)).expect("get_existing_roles");
+    let existing: SVec<Symbol> = invoke(e, c, "get_existing_roles", args!(e)).must("get_existing_roles");
     let mut ex: Vec<usize> = vec![];
     for s in existing.iter() {
         ex.push((0..ROLES.len()).find(|r| sym(e, *r) == s).unwrap_or(usize::MAX));
@@ -118,7 +118,7 @@ fn observe_all(rep: &mut Report, w: &World, c: &Address, u: &[Address], m: &Mode
     });
     for r in 0..ROLES.len() {
         let set = m.members.get(&r).cloned().unwrap_or_default();
-        let count: u32 = invoke(e, c, "get_role_member_count", args!(e, sym(e, r))).expect("count");
+        let count: u32 = invoke(e, c, "get_role_member_count", args!(e, sym(e, r))).must("get_role_member_count");
         rep.check("ref", count as usize == set.len(), &format!("C06/ref/{site}/member_count"), || {
             format!("role {} count={count} model set={set:?}", ROLES[r])
         });
@@ -142,7 +142,7 @@ fn observe_all(rep: &mut Report, w: &World, c: &Address, u: &[Address], m: &Mode
             format!("role {} get_role_member(count={count}) answered {beyond:?}", ROLES[r])
         });
         for a in 0..n {
-            let hr: Option<u32> = invoke(e, c, "has_role", args!(e, u[a], sym(e, r))).expect("has_role");
+            let hr: Option<u32> = invoke(e, c, "has_role", args!(e, u[a], sym(e, r))).must("has_role");
             rep.check("ref", hr.is_some() == set.contains(&a), &format!("C06/ref/{site}/has_role"), || {
                 format!("has_role({a},{})={hr:?} model set={set:?}", ROLES[r])
             });
@@ -153,7 +153,7 @@ fn observe_all(rep: &mut Report, w: &World, c: &Address, u: &[Address], m: &Mode
                 });
             }
         }
-        let ra: Option<Symbol> = invoke(e, c, "get_role_admin", args!(e, sym(e, r))).expect("get_role_admin");
+        let ra: Option<Symbol> = invoke(e, c, "get_role_admin", args!(e, sym(e, r))).must("get_role_admin");
         let ra_i = ra.map(|s| (0..ROLES.len()).find(|x| sym(e, *x) == s).unwrap_or(usize::MAX));
         rep.check("ref", ra_i == m.role_admin.get(&r).cloned(), &format!("C06/ref/{site}/get_role_admin"), || {
             format!("get_role_admin({})={ra_i:?} model={:?}", ROLES[r], m.role_admin.get(&r))
@@ -435,8 +435,8 @@ fn history_nft(cfg: &Cfg, rep: &mut Report, h: u64, steps: usize) {
             }
         }
         for a in 0..n {
-            let hm: Option<u32> = invoke(e, &c, "has_role", args!(e, u[a], minter.clone())).unwrap();
-            let hb: Option<u32> = invoke(e, &c, "has_role", args!(e, u[a], burner.clone())).unwrap();
+            let hm: Option<u32> = invoke(e, &c, "has_role", args!(e, u[a], minter.clone())).must("has_role");
+            let hb: Option<u32> = invoke(e, &c, "has_role", args!(e, u[a], burner.clone())).must("has_role");
             rep.check("ref", hm.is_some() == has_m.contains(&a) && hb.is_some() == has_b.contains(&a), &format!("C06/ref/{site}/has_role"), || {
                 format!("account {a}: minter={hm:?} burner={hb:?}; model minters {has_m:?} burners {has_b:?}")
             });
